@@ -1,6 +1,7 @@
 # Various node visitors to clean up nested function calls of various types.
 import ast
 import copy
+import re
 from typing import List, Optional, Tuple, Union, cast
 
 from func_adl.ast.call_stack import argument_stack, stack_frame
@@ -29,6 +30,17 @@ def arg_name():
     n = "arg_{0}".format(argument_var_counter)
     argument_var_counter += 1
     return n
+
+
+def reserve_arg_names(a: ast.AST):
+    "Move the counter past every name of the form `arg_N` that `a` already uses"
+    global argument_var_counter
+    for node in ast.walk(a):
+        name = (
+            node.id if isinstance(node, ast.Name) else node.arg if isinstance(node, ast.arg) else ""
+        )
+        if re.fullmatch("arg_[0-9]+", name):
+            argument_var_counter = max(argument_var_counter, int(name[4:]) + 1)
 
 
 def make_args_unique(a: ast.Lambda) -> ast.Lambda:
@@ -151,6 +163,18 @@ class simplify_chained_calls(FuncADLNodeTransformer):
         self._arg_stack = argument_stack()
         # The `obj.method` node of the method call being visited, if any
         self._method_head: Optional[ast.AST] = None
+        # How deep we are in calls to `visit`
+        self._depth = 0
+
+    def visit(self, node: ast.AST):
+        if self._depth == 0:
+            # Names we generate must not collide with names the query already uses
+            reserve_arg_names(node)
+        self._depth += 1
+        try:
+            return super().visit(node)
+        finally:
+            self._depth -= 1
 
     def visit_Select_of_Select(self, parent: ast.Call, selection: ast.Lambda):
         r"""
